@@ -365,8 +365,14 @@ func runC08(e *Env) Outcome {
 	cfg := cfgd.Build()
 	sc := &c08Scenario{Format: f.String(), Cfg: cfgd}
 	var doc []byte
-	fam := t.Intn("family", 7)
+	fam := t.Intn("family", 8)
+	var litTemplate func() interface{}
 	switch {
+	case fam == 7 && f == gen.CTE:
+		var desc, tn string
+		doc, desc, tn, litTemplate = adversarialLiteral(t)
+		sc.Family = "adversarial literal: " + desc + " into " + tn
+		e.Count("fault:huge-exponent-literal", 1)
 	case fam <= 1 && f == gen.CBE:
 		doc, sc.Family = adversarialCBE(t)
 		sc.Family = "adversarial header: " + sc.Family
@@ -423,6 +429,9 @@ func runC08(e *Env) Outcome {
 	var tmpl interface{}
 	if en.IsUnmarshal() && t.Bool("typed-template") {
 		tmpl = []interface{}{[]byte{}, "", []uint16{}, []interface{}{}, map[interface{}]interface{}{}}[t.Intn("template", 5)]
+	}
+	if litTemplate != nil && en.IsUnmarshal() {
+		tmpl = litTemplate()
 	}
 	fromDoc := t.Bool("from-document")
 	sig := Hash("c08", doc, en, cfgd, fmt.Sprintf("%T", tmpl), fromDoc)
